@@ -178,13 +178,14 @@ def classify(res: dict, reason: str) -> dict:
     if res["rc"] is None:
         f, fn = innermost_from_dump(res.get("err", ""))
         return {"class": "hang", "file": f, "frame": fn}
+    if res["rc"] not in (0, 1, 2):
+        exc, f, fn, caller = innermost_from_traceback(text)
+        return {"class": "status-out-of-range", "status": res["rc"], "exc": exc, "frame": fn}
     if "Traceback (most recent call last)" in text or "INTERNAL ERROR" in text:
         exc, f, fn, caller = innermost_from_traceback(text)
         if "maximum semantic analysis iteration count" in text and fn is None:
             return {"class": "semanal-iteration-cap", "exc": None, "file": "semanal_main.py", "frame": "report_hang"}
         return {"class": "crash", "exc": exc, "file": f, "frame": fn, "caller": caller}
-    if res["rc"] not in (0, 1, 2):
-        return {"class": "status-out-of-range", "status": res["rc"]}
     return {"class": "trace-rejected", "reason": reason}
 
 
@@ -633,9 +634,12 @@ def make_histories(ctx: Ctx, nhist: int, steps: int) -> list[list[dict]]:
                 kinds: list[str] = []
                 origin = c.name
             else:
+                # (generated programs whose two modules star-import each other are left to the batch stream: in the
+                # daemon they are a separate, fertile crash family — see the known findings C20-daemon-*)
                 main, files, shape = gen.program(rng)
-                files = dict(files)
-                files["main.py"] = main
+                while files:
+                    main, files, shape = gen.program(rng)
+                files = {"main.py": main}
                 kinds = ["generated"]
                 origin = "gen:" + shape
             if not probe:
@@ -787,6 +791,8 @@ def daemon_search(ctx: Ctx, runner: Runner) -> None:
                        "caller": caller_of(r["exc"][3]), "mode": "daemon"}
             elif "Daemon crashed" in str((r.get("resp") or {}).get("error")):
                 obs = {"class": "daemon-crash", "exc": "?", "mode": "daemon"}
+            elif "maximum semantic analysis iteration count" in ((r.get("resp") or {}).get("out") or "") + (r.get("printed") or ""):
+                obs = {"class": "semanal-iteration-cap", "mode": "daemon"}
             elif v != "accepted":
                 obs = {"class": "trace-rejected", "reason": v.replace("reject ", ""), "mode": "daemon"}
             if obs is not None:
@@ -924,7 +930,14 @@ WITNESSES = [
     ("F6-repeat", {"main.py": "from typing import Final\nX: Final = \"a\" * 10**12\n"}, [], "batch"),
     ("cfg-error-code", {"main.py": "x = 1\n", "cfg.ini": "[mypy]\n[mypy-foo.*]\ndisable_error_code = bogus\n"},
      ["--config-file", "cfg.ini"], "batch"),
-    ("daemon-new-import", None, [], "daemon"),
+    ("cfg-error-code-inline", {"main.py": "# mypy: disable-error-code=bogus\nx = 1\n"}, [], "batch"),
+    ("defer-final", {"main.py": "from typing import List\nclass N1(N1, N0): pass\nN0 = List[N1]\n"}, [], "batch"),
+    ("semanal-cap", {"main.py": "from typing import NamedTuple\nclass NT(NamedTuple):\n    def get_other(self) -> Other: pass\n"
+                                "class C(D): pass\nclass D(C): pass\n"}, [], "batch"),
+    ("daemon-new-import", [{"main.py": "x: int = 1\n"}, {"main.py": "import unittest\nx: int = 1\n"},
+                           {"main.py": "import xml.dom.minidom\nx: int = ''\n"}], [], "daemon"),
+    ("daemon-flushed-files", [{"main.py": "x: int = 1\n"}, {"main.py": "import json\nx: int = ''\n"},
+                              {"main.py": "x: int = ''\n"}, {"main.py": "x: int = 1\n"}], [], "daemon"),
 ]
 
 
@@ -946,10 +959,8 @@ def witnesses(ctx: Ctx, runner: Runner, info: dict) -> None:
                            {"files": files, "flags": flags, "cmd": "python -m mypy --show-traceback " + " ".join(flags + ["main.py"]),
                             "output_tail": (res["out"] + res["err"])[-1200:], "model_verdict": v})
         else:
-            hist = [{"write": {"main.py": "x: int = 1\n"}, "delete": [], "probe": False, "origin": "witness", "kinds": []},
-                    {"write": {"main.py": "import unittest\nx: int = 1\n"}, "delete": [], "probe": False, "origin": "witness", "kinds": []},
-                    {"write": {"main.py": "import xml.dom.minidom\nx: int = ''\n"}, "delete": [], "probe": True, "origin": "witness", "kinds": []}]
-            recs = run_history(ctx, runner, 900, hist, [])
+            hist = [{"write": w, "delete": [], "probe": False, "origin": "witness", "kinds": []} for w in files]
+            recs = run_history(ctx, runner, 900 + len(ctx.coverage.get("witness_verdicts", {})), hist, [])
             ctx.case(("witness", wid))
             verdict = "accepted"
             for i, r in enumerate(recs):
@@ -960,8 +971,7 @@ def witnesses(ctx: Ctx, runner: Runner, info: dict) -> None:
                     known = ctx.match_known(obs)
                     if known is not None and any(k == known["id"] for k, _ in ctx.known_hits):
                         continue
-                    ctx.report(obs, f"daemon crash ({obs['exc']} in {obs['file']}:{obs['frame']}) when an incremental check follows adding "
-                                    f"a previously unseen stdlib package import (witness {wid}, step {i})",
+                    ctx.report(obs, f"daemon crash ({obs['exc']} in {obs['file']}:{obs['frame']}) on the witness history {wid}, step {i}",
                                {"daemon_history": [{"write": s["write"], "delete": s["delete"]} for s in hist[:i + 1]],
                                 "exception": r["exc"][3][-1500:]})
                 elif r is None or r.get("hang") or r.get("worker_died"):
